@@ -9,7 +9,8 @@ LEAN_MODULES = ["SudsModel.Props.C09"]
 RULE = ("the full product: status in {None,200,201,202,204,301,400,401,403,404,500,502,503} x body class in {empty, "
         "normal, fault 1.1, fault 1.2, fault with detail, non-SOAP XML (html, an Envelope/Body/Fault in no or in a "
         "foreign namespace, a prolog and comment before the root), malformed (unclosed tag, white space only, plain "
-        "text, truncated envelope)} x faults x retxml x delivery path "
+        "text, truncated envelope, bytes that are no text in any encoding); a normal reply, a fault and a page in "
+        "ISO-8859-1 with bytes that are not valid UTF-8} x faults x retxml x delivery path "
         "in {transport reply, TransportError with/without body, __inject, RequestContext.process_reply} x binding "
         "style {document wrapped, document bare, rpc}; enumerated exhaustively in both tiers; non-trivial = every cell "
         "except status 200 + normal body; distinct = distinct cells")
@@ -32,12 +33,21 @@ SPELLINGS = {
     "nonSoap#2": (b"<e:Envelope xmlns:e='http://www.w3.org/2001/06/soap-envelope'><e:Body><e:Fault><faultcode>x</faultcode>"
                   b"<faultstring>boom</faultstring></e:Fault></e:Body></e:Envelope>"),
     "nonSoap#3": b"<?xml version='1.0'?><!-- moved --><error code='7'/>",
+    "malformed#5": b"\xff\xfe\x00\x01 binary \x80 garbage",
+    "nonSoap#4": b'<?xml version="1.0" encoding="ISO-8859-1"?><html><body>caf\xe9</body></html>',
+    "normal#1": None, "fault11#1": None, "faultDetail#1": None,
 }
 
 
+LATIN1 = b'<?xml version="1.0" encoding="ISO-8859-1"?><!-- caf\xe9 \xfc -->'
+
+
 def body_bytes(kind, style):
-    if kind in SPELLINGS:
+    if kind in SPELLINGS and SPELLINGS[kind] is not None:
         return SPELLINGS[kind]
+    if kind in ("normal#1", "fault11#1", "faultDetail#1"):
+        # the same document in another encoding, with bytes that are not valid UTF-8
+        return LATIN1 + body_bytes(kind.split("#")[0], style)
     if kind == "empty":
         return b""
     if kind == "malformed":
